@@ -311,6 +311,7 @@ var topRules = []topRule{
 	{name: "spawn-function-value-variable", good: "fn f() { println(1); }\nfn main() { spawn f(); }\n", bad: "fn f() { println(1); }\nfn main() { let g = f; spawn g(); }\n"},
 	{name: "spawn-function-value-parameter", good: "fn f() { println(1); }\nfn run() { spawn f(); }\nfn main() { run(); }\n", bad: "fn run(cb: fn() -> null) { spawn cb(); }\nfn main() { run(fn() { println(1); }); }\n"},
 	{name: "spawn-builtin", good: "fn show() { println(\"x\"); }\nfn main() { spawn show(); }\n", bad: "fn main() { spawn println(\"x\"); }\n"},
+	{name: "spawn-imported-host-function", good: "import assert_eq from testing;\nfn check() { assert_eq(1, 1); }\nfn main() { spawn check(); }\n", bad: "import assert_eq from testing;\nfn main() { spawn assert_eq(1, 1); }\n"},
 	{name: "spawn-imported-function", lib: "pub fn f() { println(1); }\nfn main() {}\n", good: "import f from lib;\nfn main() { spawn f(); }\n", bad: "import f from lib;\nfn main() { let g = f; spawn g(); }\n"},
 	// parentheses are transparent for the implicit-any rule: where a value of type any is acceptable, so is the same
 	// expression in parentheses - and nowhere else
